@@ -3,7 +3,7 @@
    machine Model/FitQuantile.v assembled from the loop pieces GENERATED from ExpectileGAM.fit_quantile (Gen/FitQuantile.v). *)
 From Coq Require Import List Reals ZArith Bool PrimFloat.
 From PG Require Import Base.Ops Base.Vec Model.Pirls Model.Expectile Proofs.VecR Proofs.C01 Proofs.C18 Proofs.C18Half
-  Gen.Stats Gen.FitQuantile Model.FitQuantile Proofs.C18Bisect Proofs.C18Flocq Proofs.C18Float.
+  Gen.Stats Gen.FitQuantile Model.FitQuantile Proofs.C18Bisect Proofs.C18Flocq Proofs.C18Float Proofs.C18PrimFlocq.
 Import ListNotations.
 Open Scope R_scope.
 
@@ -130,9 +130,8 @@ Print Assumptions C18_bisect_arguments.
    0.999, tol 1e-9, budget 100, start 0.5, ratio stuck at 0 -- now stops through the stall exit after 52 refits with expectile
    1 - 2^-53 strictly inside (0,1), no ValueError: the 53rd midpoint rounds to exactly 1.0 = max_ and is neither stored nor fitted.
    Downward (quantile 0.001, ratio stuck at 1, budget 2000): stall exit after 1073 refits at 2^-1074.  Without the stall test the
-   upward chain stores exactly 1.0 (third part; that was S11).  The link between the PrimFloat machine and the Flocq-rounded
-   real machine of C18_bisect_invariant_rounded is NOT proved (it needs Floats.FloatAxioms); the PrimFloat machine is tied to the
-   implementation by bit-exact replay of recorded fit_quantile traces on every run (harness/props/c18.py). *)
+   upward chain stores exactly 1.0 (third part; that was S11).  These are closed computations (no FloatAxioms); the universally
+   quantified statement about the PrimFloat machine is C18_bisect_invariant_binary64 below. *)
 Theorem C18_bisect_float_saturation_stops :
   (let s := w_run (Z.to_nat w_max_iter) in
    f_stalled s = true /\ f_raised s = false /\ f_broke s = false /\ f_refits s = 52%nat /\ f_n s = 52%Z /\
@@ -147,3 +146,50 @@ Theorem C18_bisect_float_saturation_stops :
    Gen_expectile_out_of_range_f (up_chain 53 0.5%float) = true).
 Proof. split; [exact float_upward_chain_stops|split; [exact float_downward_chain_stops|exact float_unguarded_midpoint_reaches_one]]. Qed.
 Print Assumptions C18_bisect_float_saturation_stops.
+
+(* ---- the PrimFloat machine refines the Flocq-rounded real machine (uses Coq.Floats.FloatAxioms through Flocq.IEEE754.PrimFloat) ----
+   FR x = B2R (Prim2B x): the real value of a primitive float;  fin x: x is finite (not NaN, not an infinity).
+   For ALL finite binary64 min_, max_ with 0 <= min_ <= max_ <= 1 the value `(max_ + min_) / 2.0` computed by the generated PrimFloat
+   loop body is, as a real, rnd64 (rnd64 (max_ + min_) / 2) with rnd64 = Flocq's binary64 round-to-nearest-even; it is finite (no
+   overflow is possible in [0,2]) and it is an end of the bracket or strictly inside it.  NaN / infinite inputs are excluded by the
+   hypotheses (finiteness and the range).
+   Print Assumptions lists, besides the real-number axioms, classic and functional extensionality that Flocq brings, the standard
+   library's FloatAxioms: add_spec, div_spec, Prim2SF_valid, SF2Prim_Prim2SF, Prim2SF_SF2Prim (and the float / int63 primitives). *)
+Theorem C18_primfloat_midpoint_refines : forall mn mx : PrimFloat.float,
+  fin mn -> fin mx -> 0 <= FR mn -> FR mn <= FR mx -> FR mx <= 1 ->
+  FR (Gen_fq_new_expectile_f mn mx) = rnd64 (rnd64 (FR mx + FR mn) / 2) /\ fin (Gen_fq_new_expectile_f mn mx) /\
+  let e' := FR (Gen_fq_new_expectile_f mn mx) in (e' = FR mn \/ e' = FR mx) \/ (FR mn < e' < FR mx).
+Proof. exact midpoint_refines_full. Qed.
+Print Assumptions C18_primfloat_midpoint_refines.
+
+(* Universally quantified binary64 statement about the PrimFloat machine (the one replayed bit for bit against the implementation):
+   for EVERY oracle history of finite ratios in [0,1], every finite quantile in [0,1], every finite tol, every budget and every finite
+   starting expectile strictly inside (0,1):
+   (1) at every point of the run no ValueError has been raised, the expectile and every value ever handed to set_params are strictly
+       inside (0,1) as binary64 comparisons, the expectile is strictly inside the bracket until the stall exit is taken, and the
+       state is -- field by field, as reals -- the state of the rounded-real machine of C18_bisect_invariant_rounded (step-by-step
+       refinement), so every statement proved there (direction of each step, shrinking bracket) transfers;
+   (2) with fuel max_iter the loop has stopped after at most max_iter refits, counted by n_iter; no earlier ratio was within tol; it
+       stopped because the ratio is within tol, or because the new midpoint equals an end of the bracket, or after exactly max_iter
+       refits.
+   Excluded by hypothesis: NaN / infinite quantile, tol, ratios or starting expectile (e.g. quantile = NaN passes fit_quantile's
+   own argument check; that is C11's concern).  FloatAxioms listed by Print Assumptions: add_spec, sub_spec, div_spec, abs_spec,
+   eqb_spec, ltb_spec, leb_spec, Prim2SF_valid, SF2Prim_Prim2SF, Prim2SF_SF2Prim.
+   Still by correspondence only: that CPython evaluates the loop as this PrimFloat machine does (bit-exact trace replay), and what
+   the refits do to the ratio (oracle). *)
+Theorem C18_bisect_invariant_binary64 : forall (quantile tol : PrimFloat.float) (max_iter : Z) (ratio : nat -> PrimFloat.float),
+  (forall k, fin (ratio k) /\ 0 <= FR (ratio k) <= 1) -> fin quantile -> 0 <= FR quantile <= 1 -> fin tol ->
+  forall e0, fin e0 -> 0 < FR e0 < 1 ->
+  (forall fuel, let s := fqf_loop fuel quantile tol max_iter ratio (fqf_init e0) in
+     f_raised s = false /\ f_inside (f_e s) = true /\ forallb f_inside (f_trace s) = true /\
+     (f_stalled s = false -> PrimFloat.ltb (f_min s) (f_e s) = true /\ PrimFloat.ltb (f_e s) (f_max s) = true) /\
+     absS s = fq_loop rnd64 fuel (FR quantile) (FR tol) max_iter (fun k => FR (ratio k)) (fq_init (FR e0))) /\
+  (let s := fqf_loop (Z.to_nat max_iter) quantile tol max_iter ratio (fqf_init e0) in
+   fqf_running max_iter s = false /\ (f_refits s <= Z.to_nat max_iter)%nat /\ f_n s = Z.of_nat (f_refits s) /\
+   (forall j, (j < f_refits s)%nat -> Gen_fq_within_tol_f (ratio j) quantile tol = false) /\
+   ((f_broke s = true /\ f_stalled s = false /\ Gen_fq_within_tol_f (ratio (f_refits s)) quantile tol = true) \/
+    (f_broke s = false /\ f_stalled s = true /\ Gen_fq_within_tol_f (ratio (f_refits s)) quantile tol = false /\
+       Gen_fq_stall_f (Gen_fq_new_expectile_f (f_min s) (f_max s)) (f_min s) (f_max s) = true) \/
+    (f_broke s = false /\ f_stalled s = false /\ f_refits s = Z.to_nat max_iter))).
+Proof. exact primfloat_bisect. Qed.
+Print Assumptions C18_bisect_invariant_binary64.
